@@ -130,11 +130,22 @@ struct Gen<'a> {
     witness: Vec<(String, WVal)>,
     next: usize,
     heavy: bool,
+    taken: Vec<String>,
 }
 
 impl Gen<'_> {
     fn fresh(&mut self) -> String {
         self.next += 1;
+        // some variables bear names that also parse as constants (hexadecimal byte strings,
+        // a single bit): name resolution must prefer the variable on both sides
+        if self.rng.chance(1, 6) {
+            let pool = ["ab", "b0", "c0de", "ff", "00", "dead", "1", "0", "0a0b"];
+            let cand = pool[self.rng.usize(pool.len())];
+            if !self.vars.iter().any(|v| v.0 == cand) && !self.taken.contains(&cand.to_string()) {
+                self.taken.push(cand.to_string());
+                return cand.to_string();
+            }
+        }
         format!("v{}", self.next)
     }
     fn of(&mut self, pred: impl Fn(&Ty) -> bool) -> Option<(String, Ty)> {
@@ -440,7 +451,7 @@ impl Gen<'_> {
 }
 
 pub fn gen_program(rng: &mut Prng, heavy: bool) -> (String, Vec<(String, WVal)>, Vec<(String, Ty)>) {
-    let mut g = Gen { rng, vars: vec![], instrs: vec![], witness: vec![], next: 0, heavy };
+    let mut g = Gen { rng, vars: vec![], instrs: vec![], witness: vec![], next: 0, heavy, taken: vec![] };
     // loads of a few types
     let n_loads = g.rng.range(1, 4);
     for _ in 0..n_loads {
@@ -448,7 +459,7 @@ pub fn gen_program(rng: &mut Prng, heavy: bool) -> (String, Vec<(String, WVal)>,
             0 => Ty::Bool,
             1 => Ty::Bytes(*g.rng.pick(&[0usize, 1, 2, 31, 32, 33, 55, 64, 70])),
             2 | 3 => Ty::Native,
-            4 => Ty::Big(*g.rng.pick(&[1u32, 8, 64, 96, 97, 128, 256, 512])),
+            4 => Ty::Big(*g.rng.pick(&[1u32, 8, 12, 17, 20, 33, 64, 96, 97, 128, 255, 256, 512])),
             5 => Ty::Point,
             6 => Ty::Scalar,
             _ => Ty::Native,
